@@ -16,13 +16,14 @@ Three parts:
 """
 import ast
 import re
+import sys
 
 import fw
 from fw import InjectedError, enc, err_name
 
 from props import C05
 
-LEAN_TARGETS = ["RxProofs.C08"]
+LEAN_TARGETS = ["RxProofs.C08", "RxProofs.C20", "RxProofs.C21", "RxProofs.C22", "RxProofs.C23", "RxProofs.C08Agg"]
 DRIVER = "drv_ops"
 DRIVER_ROOT = "Ops"
 THEOREMS = [
@@ -31,7 +32,19 @@ THEOREMS = [
     "C08.element_at_natural", "C08.map_natural", "C08.map_indexed_natural", "C08.filter_natural", "C08.filter_indexed_natural",
     "C08.take_while_natural", "C08.skip_while_natural", "C08.take_while_indexed_natural", "C08.skip_while_indexed_natural", "C08.dematerialize_natural", "C08.distinct_natural", "C08.distinct_natural_inj",
     "C08.distinct_until_changed_natural", "C08.distinct_until_changed_natural_inj", "C08.find_natural", "C08.find_index_natural",
-    "C08.materialize_natural", "C08.pyval_models_empty", "C08.pyval_asis_only_skip_last", "C08.skip_last_asis_not_natural",
+    "C08.materialize_natural",
+    # timed operators and windows: naturality over the Timed / Win families' models
+    "C08.timestamp_natural", "C08.time_interval_natural", "C08.delay_natural", "C08.throttle_first_natural", "C08.debounce_natural",
+    "C08.sample_natural", "C08.window_with_count_natural",
+    # subjects: the subject family's own naturality theorems (arbitrary renaming), audited here as well
+    "C20.subject_natural", "C21.behavior_natural", "C22.replay_natural", "C23.async_natural",
+    # aggregates: the Agg family's naturality theorems (module RxProofs.C08Agg, framework Agg.Op / Op.out)
+    "C08Agg.scan_natural", "C08Agg.reduce_natural", "C08Agg.count_natural", "C08Agg.sum_by_natural", "C08Agg.average_natural",
+    "C08Agg.max_by_natural", "C08Agg.min_by_natural", "C08Agg.max_natural", "C08Agg.min_natural", "C08Agg.to_list_natural",
+    "C08Agg.to_set_natural", "C08Agg.to_dict_natural", "C08Agg.first_last_single_natural", "C08Agg.predicate_forms_natural",
+    "C08Agg.some_natural", "C08Agg.is_empty_natural", "C08Agg.all_natural", "C08Agg.contains_natural",
+    # structural obligations (regenerated tables)
+    "C08.truthiness_sites_reviewed", "C08.pyval_models_empty", "C08.pyval_asis_only_skip_last", "C08.skip_last_asis_not_natural",
 ]
 RULE = ("(1) C05's generator with every element, default, start value and callback result drawn from the falsy domain "
         "{None,0,0.0,False,'',(),[],{},1,'a'}; (2) naturality cases: one catalogue entry (operators of all families, subjects, factories), "
@@ -70,7 +83,19 @@ def regenerate():
     out = fw.LEAN / "RxGen" / "OpsPyVal.lean"
     if not out.exists() or out.read_text() != text:
         out.write_text(text)
-    return {"pyval_users": users, "pyval_asis": asis}
+    sites = scan_sites()
+    q = lambda x: '"' + x.replace("\\", "\\\\").replace('"', '\\"') + '"'  # noqa
+    rows = ",\n  ".join("(%s, %s, %s, %s)" % tuple(q(x) for x in site_key(st)) for st in sites)
+    text2 = ("/-! REGENERATED on every run by harness/props/C08.py from /repo/reactivex/{operators,subject,observable} — do not edit.\n"
+             "Truthiness / `is None` / `or default` / None-sentinel tests on variables fed from `on_next` arguments\n"
+             "(file, function, kind, expression). -/\n"
+             "namespace OpsTruthiness\n"
+             f"def sites : List (String × String × String × String) := [{rows}]\n"
+             "end OpsTruthiness\n")
+    out2 = fw.LEAN / "RxGen" / "OpsTruthiness.lean"
+    if not out2.exists() or out2.read_text() != text2:
+        out2.write_text(text2)
+    return {"pyval_users": users, "pyval_asis": asis, "truthiness_sites": [list(site_key(st)) for st in sites]}
 
 
 # ===================================================================================== part 2: the two worlds
@@ -305,7 +330,7 @@ def CATALOGUE():
     return C
 
 
-SUBJECTS = ["Subject", "BehaviorSubject", "ReplaySubject", "ReplaySubject_window", "AsyncSubject", "run_last", "to_future_like_first"]
+SUBJECTS = ["Subject", "BehaviorSubject", "ReplaySubject", "ReplaySubject_window", "AsyncSubject", "run_last", "to_future_like_first", "to_future"]
 
 
 def _rand_timeline(rng, alphabet, hot=True):
@@ -449,6 +474,14 @@ def run_subject(case, W):
             return {"out": enc(W.back(rx.of(*[W.v(i) for i in P["seq"]]).run()))}
         except Exception as e:
             return {"out": ["raised", err_name(e)]}
+    if kind == "to_future":
+        import concurrent.futures
+
+        try:
+            fut = rx.of(*[W.v(i) for i in P["seq"]]).pipe(ops.to_future(lambda: concurrent.futures.Future()))
+            return {"out": enc(W.back(fut.result(timeout=5)))}
+        except Exception as e:
+            return {"out": ["raised", err_name(e)]}
     if kind == "to_future_like_first":
         try:
             return {"out": enc(W.back(rx.of(*[W.v(i) for i in P["seq"]]).pipe(ops.first()).run()))}
@@ -551,92 +584,171 @@ def shrink(case):
 
 
 # ===================================================================================== part 3: AST scan
-REVIEWED = {
-    # (file, function, test) -> why it is not a test on an element's value
-    ("operators/_pairwise.py", "on_next", "pair"): "pair is None or a 2-tuple (always truthy)",
-    ("observable/timer.py", "action", "count"): "count is the scheduler state of the periodic action, not an element",
-}
+# Reviewed sites are listed (with their justification) in lean/RxProofs/C08.lean `allowedTruthinessSites`; the scan
+# itself already leaves out tests that are not about an element's value: emptiness tests of containers that hold
+# elements (`while q:`), tests of freshly built tuples (`pair = (previous, x) … if pair:`), results of user predicates.
+from pathlib import Path
 
+SEED_FUNCS = ("on_next", "_on_next", "projection")
 
-def scan_sites():
-    """truthiness / `is None` / `or` tests on names fed from on_next-style callback arguments"""
+def expr_key(e):
+    """tracked name of an expression: Name -> 'x'; x[...] -> 'x'; self.a -> 'self.a'; self.a[...] -> 'self.a'"""
+    if isinstance(e, ast.Name):
+        return e.id
+    if isinstance(e, ast.Subscript):
+        return expr_key(e.value)
+    if isinstance(e, ast.Attribute) and isinstance(e.value, ast.Name) and e.value.id == "self":
+        return "self." + e.attr
+    if isinstance(e, ast.Starred):
+        return expr_key(e.value)
+    return None
+
+def scan_scope(rel, scope_name, funcs, sites):
+    """funcs: all FunctionDef/Lambda nodes of one closure scope (an outer function with its nested handlers, or a class)"""
+    tainted, containers, none_names = set(), set(), set()
+    seeds = []
+    sub_first = set()
+    for f in funcs:
+        for node in ast.walk(f):
+            if isinstance(node, ast.Call) and isinstance(node.func, ast.Attribute) and node.func.attr in ("subscribe", "subscribe_safe") and node.args:
+                a = node.args[0]
+                if isinstance(a, ast.Name):
+                    sub_first.add(a.id)
+    for f in funcs:
+        name = getattr(f, "name", "<lambda>")
+        if name.startswith(SEED_FUNCS) or name in sub_first:
+            ps = [a.arg for a in f.args.args if a.arg not in ("self", "scheduler", "state", "_", "i", "index")]
+            if name in sub_first and not name.startswith(SEED_FUNCS):
+                ps = ps[:1]
+            seeds.append((f, ps))
+            tainted.update(ps[:1] if ps else [])
+    if not seeds:
+        return
+
+    def is_t(e):
+        if e is None:
+            return False
+        if isinstance(e, ast.IfExp):
+            return is_t(e.body) or is_t(e.orelse)
+        if isinstance(e, ast.Call) and isinstance(e.func, ast.Name) and e.func.id == "cast" and len(e.args) == 2:
+            return is_t(e.args[1])
+        if isinstance(e, ast.Call) and isinstance(e.func, ast.Attribute) and e.func.attr in ("pop", "popleft", "get"):
+            k = expr_key(e.func.value)
+            return k is not None and (k in containers or k in tainted)
+        if isinstance(e, (ast.Tuple, ast.List)):
+            return False  # a freshly built container is never falsy-by-element
+        if isinstance(e, ast.Subscript):
+            k = expr_key(e.value)
+            return k is not None and (k in containers or k in tainted)
+        k = expr_key(e)
+        return k is not None and k in tainted
+
+    for _ in range(4):
+        for f in funcs:
+            for node in ast.walk(f):
+                if isinstance(node, (ast.Assign, ast.AnnAssign, ast.AugAssign)):
+                    tgts = node.targets if isinstance(node, ast.Assign) else [node.target]
+                    val = node.value
+                    if val is None:
+                        continue
+                    flat = []
+                    for t in tgts:
+                        if isinstance(t, (ast.Tuple, ast.List)) and isinstance(val, (ast.Tuple, ast.List)) and len(t.elts) == len(val.elts):
+                            flat += list(zip(t.elts, val.elts))
+                        else:
+                            flat.append((t, val))
+                    for t, v in flat:
+                        k = expr_key(t)
+                        if k is None:
+                            continue
+                        if is_t(v):
+                            (containers if isinstance(t, ast.Subscript) else tainted).add(k)
+                        if isinstance(v, ast.Constant) and v.value is None and isinstance(t, ast.Name):
+                            none_names.add(k)
+                if isinstance(node, ast.Call) and isinstance(node.func, ast.Attribute) and node.func.attr in ("append", "add", "put", "appendleft", "insert"):
+                    if any(is_t(a) for a in node.args):
+                        k = expr_key(node.func.value)
+                        if k:
+                            containers.add(k)
+        # what a seed function returns / what is emitted downstream is element-like
+        for f, ps in seeds:
+            for node in ast.walk(f):
+                if isinstance(node, ast.Return) and node.value is not None:
+                    k = expr_key(node.value)
+                    if k and isinstance(node.value, (ast.Name,)):
+                        tainted.add(k)
+    none_names -= {k for k in none_names if False}
+
+    def add(kind, fn, node, e):
+        sites.append({"file": rel, "scope": scope_name, "function": getattr(fn, "name", "<lambda>"), "kind": kind,
+                      "expr": ast.unparse(e), "line": node.lineno})
+
+    for f in funcs:
+        own = [n for n in ast.walk(f)]
+        for node in own:
+            tests = []
+            if isinstance(node, (ast.If, ast.While, ast.IfExp)):
+                tests.append(node.test)
+            if isinstance(node, ast.Assert):
+                tests.append(node.test)
+            for t in tests:
+                stack = [t]
+                while stack:
+                    x = stack.pop()
+                    if isinstance(x, ast.UnaryOp) and isinstance(x.op, ast.Not):
+                        stack.append(x.operand)
+                    elif isinstance(x, ast.BoolOp):
+                        stack += x.values
+                    elif is_t(x) and not isinstance(x, ast.Call):
+                        add("truthiness", f, node, x)
+            if isinstance(node, ast.Compare) and len(node.ops) == 1:
+                l, r, op = node.left, node.comparators[0], node.ops[0]
+                def is_none(e):
+                    return (isinstance(e, ast.Constant) and e.value is None) or (isinstance(e, ast.Name) and e.id in none_names and e.id not in tainted)
+                if isinstance(op, (ast.Is, ast.IsNot, ast.Eq, ast.NotEq)):
+                    if (is_t(l) and is_none(r)) or (is_t(r) and is_none(l)):
+                        add("is-none", f, node, node)
+                if isinstance(op, (ast.In, ast.NotIn)) and is_none(l) and (is_t(r) or expr_key(r) in containers):
+                    add("none-sentinel", f, node, node)
+            if isinstance(node, ast.BoolOp) and isinstance(node.op, ast.Or) and is_t(node.values[0]):
+                add("or-default", f, node, node)
+
+def scan_sites(repo=None):
     sites = []
-    roots = [fw.REPO / "reactivex" / d for d in ("operators", "subject", "observable")]
-    for root in roots:
-        for p in sorted(root.rglob("*.py")):
+    base = Path(repo or fw.REPO) / "reactivex"
+    for d in ("operators", "subject", "observable"):
+        for p in sorted((base / d).rglob("*.py")):
             try:
                 tree = ast.parse(p.read_text())
             except SyntaxError:
                 continue
-            rel = str(p.relative_to(fw.REPO / "reactivex"))
-            for fn in ast.walk(tree):
-                if not isinstance(fn, (ast.FunctionDef, ast.Lambda)):
-                    continue
-                name = getattr(fn, "name", "<lambda>")
-                if not (name.startswith("on_next") or name in ("_on_next_core", "projection", "action") or name == "<lambda>" and False):
-                    continue
-                args = [a.arg for a in fn.args.args if a.arg not in ("self", "scheduler", "state", "_")]
-                if not args:
-                    continue
-                tainted = set(args)
-                body = fn.body if isinstance(fn.body, list) else [fn.body]
-                # containers that receive tainted values, and names popped/read from them
-                cont = set()
-                for _ in range(3):
-                    for node in ast.walk(ast.Module(body=body, type_ignores=[])):
-                        if isinstance(node, ast.Call) and isinstance(node.func, ast.Attribute) and node.func.attr in ("append", "add", "put") \
-                                and any(isinstance(a, ast.Name) and a.id in tainted for a in node.args) and isinstance(node.func.value, ast.Name):
-                            cont.add(node.func.value.id)
-                        if isinstance(node, (ast.Assign, ast.AnnAssign)):
-                            val = node.value
-                            tgts = node.targets if isinstance(node, ast.Assign) else [node.target]
-                            src_t = False
-                            if isinstance(val, ast.Name) and val.id in tainted:
-                                src_t = True
-                            if isinstance(val, ast.Call) and isinstance(val.func, ast.Attribute) and val.func.attr in ("pop", "popleft", "get") \
-                                    and isinstance(val.func.value, ast.Name) and val.func.value.id in cont:
-                                src_t = True
-                            if isinstance(val, ast.Subscript) and isinstance(val.value, ast.Name) and val.value.id in cont:
-                                src_t = True
-                            if isinstance(val, ast.Tuple) and any(isinstance(e, ast.Name) and e.id in tainted for e in val.elts):
-                                src_t = True
-                            if src_t:
-                                for t in tgts:
-                                    if isinstance(t, ast.Name):
-                                        tainted.add(t.id)
-
-                def is_t(e):
-                    return isinstance(e, ast.Name) and e.id in tainted
-
-                def add(kind, node, var):
-                    sites.append({"file": rel, "function": name, "line": node.lineno, "kind": kind, "var": var})
-
-                for node in ast.walk(ast.Module(body=body, type_ignores=[])):
-                    if isinstance(node, (ast.If, ast.While, ast.IfExp)):
-                        t = node.test
-                        if isinstance(t, ast.UnaryOp) and isinstance(t.op, ast.Not):
-                            t = t.operand
-                        if is_t(t):
-                            add("truthiness", node, t.id)
-                        if isinstance(t, ast.BoolOp):
-                            for v in t.values:
-                                v2 = v.operand if isinstance(v, ast.UnaryOp) and isinstance(v.op, ast.Not) else v
-                                if is_t(v2):
-                                    add("truthiness", node, v2.id)
-                    if isinstance(node, ast.Compare) and len(node.ops) == 1 and isinstance(node.ops[0], (ast.Is, ast.IsNot)) \
-                            and isinstance(node.comparators[0], ast.Constant) and node.comparators[0].value is None and is_t(node.left):
-                        add("is-none", node, node.left.id)
-                    if isinstance(node, ast.BoolOp) and isinstance(node.op, ast.Or) and is_t(node.values[0]) \
-                            and not isinstance(getattr(node, "_parent", None), (ast.If, ast.While)):
-                        add("or-default", node, node.values[0].id)
-    # de-duplicate (a BoolOp inside an If is reported once)
+            rel = str(p.relative_to(base))
+            # scopes: every top-level function (with everything nested) and every class
+            for top in tree.body:
+                if isinstance(top, (ast.FunctionDef, ast.ClassDef)):
+                    funcs = [n for n in ast.walk(top) if isinstance(n, (ast.FunctionDef, ast.Lambda))]
+                    scan_scope(rel, top.name, funcs, sites)
+    best = {}
+    for s in sites:  # the same node is seen from every enclosing function: keep the innermost (walked last)
+        best[(s["file"], s["kind"], s["expr"], s["line"])] = s
     seen, out = set(), []
-    for s in sites:
-        k = (s["file"], s["function"], s["line"], s["var"])
+    for s in best.values():
+        k = (s["file"], s["function"], s["kind"], s["expr"])
         if k not in seen:
-            seen.add(k)
-            out.append(s)
-    return out
+            seen.add(k); out.append(s)
+    return sorted(out, key=lambda s: (s["file"], s["line"]))
+
+
+
+def site_key(s):
+    return (s["file"], s["function"], s["kind"], s["expr"])
+
+
+def allowed_sites():
+    """the allow-list, read from the Lean source (the obligation itself is checked by `decide` at lake build)"""
+    src = (fw.LEAN / "RxProofs" / "C08.lean").read_text()
+    m = re.search(r"def allowedTruthinessSites[^\n]*:=\s*\[(.*?)\]\s*\n\s*\ntheorem", src, flags=re.S)
+    return set(tuple(t) for t in re.findall(r'\("([^"]*)",\s*"([^"]*)",\s*"([^"]*)",\s*"([^"]*)"\)', m.group(1))) if m else set()
 
 
 _SITES = None
@@ -650,7 +762,8 @@ def _site_weights():
             _SITES = scan_sites()
         except Exception:
             _SITES = []
-    hot = {re.sub(r"\.py$", "", s["file"].split("/")[-1]) for s in _SITES if (s["file"], s["function"], s["var"]) not in REVIEWED}
+    ok = allowed_sites()
+    hot = {re.sub(r"\.py$", "", s["file"].split("/")[-1]) for s in _SITES if site_key(s) not in ok}
     w = {}
     for n, (b, files, k) in CATALOGUE().items():
         if any(f in hot for f in files):
@@ -660,7 +773,8 @@ def _site_weights():
 
 def extra(rng, tier):
     sites = scan_sites()
-    unreviewed = [s for s in sites if (s["file"], s["function"], s["var"]) not in REVIEWED]
+    ok = allowed_sites()
+    unreviewed = [s for s in sites if site_key(s) not in ok]
     cat = CATALOGUE()
     covered_files = sorted({f for b, files, k in cat.values() for f in files})
     return {"failures": [], "proof_failures": [],
@@ -668,12 +782,47 @@ def extra(rng, tier):
                          "catalogue_files": covered_files, "falsy_domain": [repr(v) for v in FALSY]}}
 
 
-LEVEL_TEXT = ("Lean theorems: naturality — for every renaming of the elements (injective where the operator compares elements), every raw input "
-              "and callbacks transported along the renaming, take, skip, take_last, skip_last (fixed), take_last_buffer, pairwise, start_with, "
-              "default_if_empty, ignore_elements, element_at(_or_default), map, map_indexed, filter(+indexed), take_while, skip_while, distinct, "
-              "distinct_until_changed, find, find_index, materialize commute with the renaming (corollaries of the C05 op_eq theorems): no value, "
-              "falsy or not, is special. pyval_models_empty: no operator model needs truthiness/is-None of an element (regenerated table). "
-              "Real code: C05 differential runs on the falsy domain + a model-independent naturality oracle over ~125 operators/factories/subjects.")
-LEVEL_NOTE = ("Lean part covers the Ops family only (the operators modelled for C05); scan (used only by slice) has no separate naturality theorem. Subject, BehaviorSubject and AsyncSubject have their own value-naturality theorems in the subject family (C20.subject_natural, C21.behavior_natural, C23.async_natural over RxProofs/Lemmas/SubjNat.lean, for an arbitrary renaming; audited under C20/C21/C23, cited here, not imported); ReplaySubject and all other operator families are covered by the real-code naturality "
-              "oracle only (exploration, not proof). skip_last is the fixed one; skip_last_asis_not_natural shows the pinned one is not natural. "
-              "The PyVal table is regenerated from the Lean model sources (not from /repo); the /repo AST scan only lists candidate sites.")
+def search(rng, tier, disagreeing):
+    """failing-input search when an obligation broke (typically: a new truthiness site in the regenerated table):
+    aim the naturality oracle at the catalogue entries / subject scripts that exercise the flagged files."""
+    try:
+        sites = [s for s in scan_sites() if site_key(s) not in allowed_sites()]
+    except Exception:
+        sites = []
+    hot = {re.sub(r"\.py$", "", s["file"].split("/")[-1]) for s in sites}
+    subj = any(s["file"].startswith("subject/") for s in sites)
+    w = {n: (200 if any(f in hot for f in files) else 1) for n, (b, files, k) in CATALOGUE().items()}
+    for i in range(fw.tier_scale(tier, 6000, 30000)):
+        c = gen_nat_case(rng, w)
+        if subj and i % 2 == 0 and not c["entry"].startswith("subject:"):
+            continue
+        out = impl(c)
+        v = oracle(c, out)
+        if v:
+            f = fw.shrink_failure(sys.modules[__name__], fw.Failure("oracle", c, v))
+            return f
+    for c in disagreeing[:50]:
+        v = oracle(c, impl(c))
+        if v:
+            return fw.Failure("oracle", c, v)
+    return None
+
+
+LEVEL_TEXT = ("Lean theorems: naturality — renaming the elements (injective only where the operator compares elements; callbacks transported "
+              "along the renaming) commutes with the operator, for every input: (Ops family, corollaries of the C05 op_eq theorems, any raw input, "
+              "with/without lagging disposal) take, skip, take_last, skip_last (fixed), take_last_buffer, pairwise, start_with, default_if_empty, "
+              "ignore_elements, element_at(_or_default), map, map_indexed, filter(+indexed), take_while(+indexed), skip_while(+indexed), distinct, "
+              "distinct_until_changed, find, find_index, materialize, dematerialize; (Timed/Win families' models) timestamp, time_interval, delay, "
+              "throttle_first, debounce, sample, window_with_count/buffer_with_count contents; (subject family's theorems, audited here too) Subject, "
+              "BehaviorSubject, ReplaySubject, AsyncSubject; (Agg family's theorems, module C08Agg, audited here too) scan, reduce, count, sum/average "
+              "by key, min/max(_by), to_list, to_set, to_dict, first/last/single (+_or_default, predicate forms), some, all, is_empty, contains. Structural obligations re-checked on every run: truthiness_sites_reviewed (AST scan of "
+              "/repo: no truthiness / is-None / or-default / None-sentinel test on a variable fed from on_next arguments outside the allow-list, "
+              "`decide` over the regenerated table) and pyval_models_empty. Real code: C05 differential runs on the falsy domain + a "
+              "model-independent naturality oracle over ~125 operators/factories/subject scripts (observers before and after the terminal).")
+LEVEL_NOTE = ("Proof-level catalogue = the operators named above. sequence_equal and the unhashable to_set/to_dict variants, combinators (merge/zip/combine_latest/…), grouping, "
+              "timeout/take_until-style operators, the other window kinds and connectables have no naturality theorem here: they are covered by the "
+              "truthiness-site obligation (static) and the real-code naturality oracle (exploration, not proof). delay_natural needs non-decreasing "
+              "times (as C15.delay_shift does); timed naturality goes through the Timed family's Run=Spec theorems (imports RxProofs.C15/C16/C18, "
+              "models read-only). scan (used only by slice) has no separate naturality theorem. skip_last is the fixed one; "
+              "skip_last_asis_not_natural shows the pinned one is not natural. The PyVal table is regenerated from the Lean model sources; the "
+              "truthiness table from /repo (fail closed: a new site breaks `lake build`; `search` then aims the oracle at the flagged files).")
